@@ -74,6 +74,12 @@ func runPrio(c *Ctx) {
 	}
 	c.R.Add("PRIO-W", "order", "(edge table)", "-", wMatch < 0 && 0 < wNormal && wNormal < wTyped && wTyped < wOther,
 		"matching-name discount < 0 < normal < typed < other-subtype", fmt.Sprintf("%d < 0 < %d < %d < %d", wMatch, wNormal, wTyped, wOther))
+	// the discount never outweighs the cheapest edge: every discounted edge leads into a named vertex and is followed, on
+	// any cycle, by at least one undiscounted edge out of it, so a cycle of name-matching conversions has non-negative
+	// length only if |discount| <= normal (a negative cycle sends the inner search back through the converter being
+	// reached: a derivable parameter is reported as unsatisfied)
+	c.R.Add("PRIO-W", "discount-no-negative-cycle", "(edge table)", "-", wMatch+wNormal >= 0,
+		"the matching-name discount does not outweigh the cheapest edge (discount + normal >= 0), so cycles of name-matching conversions cannot have negative length", fmt.Sprintf("%d + %d >= 0", wMatch, wNormal))
 	// C07 clause 1: a same-named feeder beats any other-named feeder of the same type-only converter input
 	c.R.Add("PRIO-W", "same-name-feeder-cheaper", "(edge table)", "-", wMatch < wTyped,
 		"feeding a type-only converter input from the same-named value (discounted edge) is strictly cheaper than from any other named value (typed edge)", fmt.Sprintf("%d < %d", wMatch, wTyped))
@@ -333,6 +339,77 @@ func runPrio(c *Ctx) {
 		c.R.Add("PRIO-P", "resolver|from-root", "resolver", p.InstrPos(dj), fromRoot, "the search starts at the input root", fmt.Sprintf("ok=%v", fromRoot))
 		sameG := searched != nil && ep.Common().Args[0] == searched
 		c.R.Add("PRIO-P", "resolver|path-read-from-searched-graph", "resolver", p.InstrPos(ep), sameG, "the path is reconstructed on the very graph value that was searched", fmt.Sprintf("ok=%v", sameG))
+		// the functions on a path resolve their own inputs on the graph that path was searched on: the name preference of
+		// the requirement carries over to the nested resolution (on the plain graph same-typed named values tie there and
+		// map order picks one)
+		if searched != nil {
+			nNested, badNested := 0, ""
+			for _, ci := range p.RegionCalls(res) {
+				if ci.Common().StaticCallee() != res || ci.Parent() == nil {
+					continue
+				}
+				// the graph operand: the argument in the position of the resolver's own graph parameter
+				gi := -1
+				for i, prm := range res.Params {
+					if core.TypeStr(prm.Type()) == core.TypeStr(searched.Type()) && gi < 0 {
+						gi = i
+					}
+				}
+				if gi < 0 || gi >= len(ci.Common().Args) {
+					continue
+				}
+				nNested++
+				arg := core.Strip(ci.Common().Args[gi])
+				okG := arg == core.Strip(searched)
+				// kept per path in a local list: graphs[i] = the searched graph; … reachTarget(graphs[i], …)
+				if ld, isLd := arg.(*ssa.UnOp); isLd && !okG {
+					if ia, isIA := ld.X.(*ssa.IndexAddr); isIA {
+						stored, other := false, false
+						core.Instrs(ci.Parent(), func(in ssa.Instruction) {
+							if st, isSt := in.(*ssa.Store); isSt {
+								if ia2, isIA2 := st.Addr.(*ssa.IndexAddr); isIA2 && ia2.X == ia.X {
+									if core.Strip(st.Val) == core.Strip(searched) {
+										stored = true
+									} else {
+										other = true
+									}
+								}
+							}
+						})
+						okG = stored && !other
+					}
+				}
+				// … or the preferred name travels in the call state: a string field of the state is set from a named vertex's
+				// name in the resolver (the nested call reads it when its own requirement has no name)
+				if !okG {
+					p.RegionInstrs(res, func(in ssa.Instruction) {
+						st, isSt := in.(*ssa.Store)
+						if !isSt {
+							return
+						}
+						fa, isF := core.AsFieldAddr(st.Addr)
+						if !isF || fa.Owner != "callState" {
+							return
+						}
+						if b, isB := st.Val.Type().Underlying().(*types.Basic); !isB || b.Kind() != types.String {
+							return
+						}
+						for _, sv := range core.Sources(st.Val) {
+							if fr, isL := core.AsFieldLoad(sv); isL && fr.Owner == kinds.Value && fr.Field == "Name" {
+								okG = true
+							}
+						}
+					})
+				}
+				if !okG {
+					badNested = "the nested resolution at " + p.InstrPos(ci) + " gets neither the graph its path was searched on (it runs on " + core.Path(arg) + ") nor a preferred name in the call state"
+				}
+			}
+			if nNested > 0 {
+				c.R.Add("PRIO-I", "resolver|nested-resolution-inherits-name-preference", "resolver", p.InstrPos(ep), badNested == "",
+					"a function on a named requirement's path resolves its own type-only inputs under that requirement's name preference (the nested search is handed the discounted graph, or the preferred name)", ternary(badNested == "", fmt.Sprintf("%d nested call(s) inherit the preference", nNested), badNested))
+			}
+		}
 		fromDj := false
 		if e, ok := ep.Common().Args[2].(*ssa.Extract); ok && e.Tuple == ssa.Value(dj) && e.Index == 1 {
 			fromDj = true
